@@ -3,14 +3,38 @@ from framework.registry import target, job, PROPS, COMMON_ASSUME
 # ---------------------------------------------------------------------------
 # C20 the C interface (0- and 1-based) gives the C++ results
 # ---------------------------------------------------------------------------
-# lib/amgcl.cpp is compiled into the harness binary (second translation unit of the target).
+# lib/amgcl.cpp is compiled into the harness binary (second translation unit of the target), so an edit of
+# lib/amgcl.cpp or lib/amgcl.h rebuilds it.  Sub-checks of harness/c20_capi.cpp:
+#   precond     create / apply / report / destroy   C handle vs C++ amg<runtime, runtime>, 1-based vs 0-based
+#   solver      create / solve / solve_mtx / report / destroy   C handle vs C++ make_solver, 1-based vs 0-based
+#   typed_twin  C API (setters and/or JSON file) vs COMPILE-TIME composed solver with a field-by-field filled
+#               params struct (exactly representable values): "parameters reach the solver unchanged"
+#   maxiter     maxiter = k, tol = 1e-30  ->  exactly k iterations (cg, bicgstab, gmres, fgmres, richardson)
+#   lifecycle   create/destroy pairs incl. failing creates; LeakSanitizer at process exit
+# Every array given to the C API is an exact-size heap block (ASan red zones on both sides).
+# Oracle notes: all comparisons are between executions of one binary at one thread; exceptions raised by the
+# library for a parameter set (e.g. IDR(s) breakdown) must occur identically on both sides and are counted, not judged
+# (truthfulness of the solve belongs to C01/C05).  LSAN max_leaks keeps a leak report short enough for the driver's
+# triage (it reads the tail of stderr).
 target('c20', ['harness/c20_capi.cpp', '{repo}/lib/amgcl.cpp'], flags=['-I{repo}/lib'])
 
 def c20_jobs(tier):
     return [job('capi-plain', 'c20', 'plain', threads=1, shards=8, timeout=3600),
-            job('capi-asan', 'c20', 'asan', threads=1, shards=8, timeout=7200)]      # ASan + UBSan + LSan (detect_leaks=1)
+            job('capi-asan', 'c20', 'asan', threads=1, shards=8, timeout=7200, env={'LSAN_OPTIONS': 'max_leaks=4'})]   # ASan + UBSan + LSan (detect_leaks=1)
 
 PROPS['C20'] = dict(
     level='exploration', jobs=c20_jobs,
-    rule='TODO', min_nontrivial=dict(quick=100, thorough=1000),
-    assumptions=COMMON_ASSUME, technique='TODO', level_text='TODO', level_note='TODO')
+    rule=('one case = one generated system (5/7/9-point diffusion, shifted diffusion, upwind convection-diffusion; 36-900 unknowns) and one random parameter set '
+          'expressible through the C API (component names via sets, integers/booleans via seti, reals via setf or as text, a random subset moved into a JSON file '
+          'written by the harness, sometimes overridden by a setter; every 36th/54th case passes a NULL parameter handle). precond cases cycle through all 36 '
+          '(coarsening, relaxation) cells, solver cases through the 9 solvers x 4 coarsenings. Non-trivial: the result is finite and the solve moved x '
+          '(typed_twin / maxiter: at least one iteration; lifecycle: at least one create/destroy pair). distinct = distinct (sub-check, descriptor) hash.'),
+    exhaustive_note='all 16 functions of lib/amgcl.h are called; all 36 (coarsening, relaxation) cells and all 9 solver names through both index bases',
+    min_nontrivial=dict(quick=800, thorough=8000),
+    require_obs=dict(quick=['create_destroy_pairs', 'failing_creates'], thorough=['create_destroy_pairs', 'failing_creates']),
+    assumptions=COMMON_ASSUME + ['Boost.PropertyTree / read_json are trusted (both sides of the differential use them)'],
+    technique=('differential oracle, bitwise: C handle API vs the equivalent C++ run-time classes with the same property-tree operations, 1-based vs 0-based entry points, '
+               'and C API vs a compile-time composed solver with typed parameters; behavioural maxiter oracle; ASan/UBSan on exact-size heap blocks; LeakSanitizer on create/destroy pairs'),
+    level_text=('Every entry point of lib/amgcl.h is executed on seeded systems and parameter sets and compared bitwise with the C++ interface; the 1-based entry points run on exact-size '
+                'heap arrays under ASan; leaks of create/destroy pairs are checked at exit. Held means no observed execution deviated.'),
+    level_note='only the double-precision builtin back end exists behind the C API; the Fortran module and the Python/other bindings are not exercised; thread counts > 1 are not used for the bitwise comparison')
